@@ -200,23 +200,25 @@ def resolve_crash(crash, ev):
     return [{"kind": crash["kind"], "event": k}]
 
 
-class Irreproducible(tlc.MachineryError):
-    pass
-
-
 def crashed_chain(case, ev, crash, sandbox):
-    """Chain B: run 1 crashed at the crash['event']-th observed call, then a second run."""
+    """Chain B: run 1 crashed at the crash['event']-th observed call, then a second run.
+
+    The uncrashed execution (ev) only served to choose the call; everything that is recorded about the crashed run - the
+    directory states it went through, the state it was in when it died, the number of requests it had made - is what
+    THIS execution observed (the killed child hands its observations over before it exits), so nothing has to be equal
+    between two executions.  Returns None if the run ended before that call (nothing was injected)."""
     fx = fx_of(case)
     p, init, script = case["p"], case["init"], case["script"]
     k = crash["event"]
     d = os.path.join(sandbox, "dir")
     cf.materialize(fx, d, init, p)
     rc = cf.run_once(fx, d, p, script, crash=crash, workdir=sandbox)
-    if [(cf.core(s), n) for s, n in rc["events"][:k]] != [(cf.core(s), n) for s, n in ev[:k]]:
-        raise Irreproducible("run is not reproducible: observed calls differ between two executions of case %s" % case["id"])
-    nreq1 = ev[k - 1][1]
+    if not rc["fired"]:
+        return None
+    own = rc["events"][:k]
+    nreq1 = own[-1][1]
     rc["nreq"] = nreq1
-    recc = _run_record(p, script, rc, {"kind": crash["kind"], "seg": _seg_of(ev, k)}, ev[:k])
+    recc = _run_record(p, script, rc, {"kind": crash["kind"], "seg": _seg_of(own, len(own))}, own)
     cf.settle(d, 1)
     rest = script[nreq1:]
     r2 = cf.run_once(fx, d, p, rest)
@@ -339,6 +341,12 @@ DIRECTED = [
     ("killed-table-build-short-body", "none", "none", False, False, {}, ["Th"], {"kind": "kill", "match": {"off": "part", "newer": True}}),
     ("tar-mtime-stale-table", "tar.gz", "none", True, True, {"doc": "other", "arch": "G", "off": "O", "newer": True}, [], None),
     ("retries-exhausted", "none", "none", True, False, {}, ["proto"] * 11, None),
+    # every end kind / exception kind the vacuity guard asks for, whatever the seed draws
+    ("bundled-nothing-there", "gz", "none", True, True, {}, [], None, "lf", {"entry": "bundled"}),
+    ("bundled-archive-there", "zst", "ok", True, True, {"arch": "G"}, [], {"kind": "intr", "match": {"doc": "full"}}, "lf", {"entry": "bundled"}),
+    ("offline-nothing-there", "tar", "none", True, True, {}, [], None, "lf", {"net": "offline"}),
+    ("no-url-wrong-sized-archive", "tgz", "none", True, True, {"arch": "Th"}, [], None, "lf", {"net": "nourl"}),
+    ("http-404-test-mode", "bz2", "fail", False, False, {}, ["http"], None, "crlf"),
     # a well-formed response (Content-Length == body length) that is not the declared file: must never get the final name
     ("short-body-matching-header-declared", "gz", "none", True, True, {}, [{"k": "body", "c": "Th", "hdr": True}, "G"], None),
     ("junk-200-declared-uncompressed", "none", "none", True, False, {"tmp": "stale"}, [{"k": "body", "c": "J", "hdr": True}], None),
@@ -358,6 +366,8 @@ def directed_cases():
         eol = row[8] if len(row) > 8 else "lf"
         fx = fixture(eol)
         p = {"fmt": fmt, "tool": tool, "uDecl": u, "cDecl": c, "net": "online", "cons": True, "entry": "plain", "testMode": not (u or c), "slash": True, "eol": eol}
+        if len(row) > 9:
+            p.update(row[9])
         init = dict({"doc": "absent", "arch": "absent", "tmp": "absent", "off": "absent", "newer": False}, **over)
         cases.append({"id": "dir-" + name, "src": "directed", "p": p, "init": init, "script": [concretize_outcome(k, rnd, fx, fmt) for k in kinds], "crash": crash})
     return cases
@@ -438,15 +448,11 @@ def run_cases(cases, out, label, sandbox):
         if case.get("crash") and not crashes:
             unreal += 1
         for cr in crashes:
-            try:
-                item, det = crashed_chain(case, ev, cr, sandbox)
-            except Irreproducible:
-                out.extra["reexecuted_after_differing_observation"] = out.extra.get("reexecuted_after_differing_observation", 0) + 1
-                # once more against a fresh uncrashed execution (anything that happens in the first execution of a process
-                # only); a second disagreement is a machinery failure
-                _, ev, _ = dry_chain(case, sandbox)
-                cr = (resolve_crash(case.get("crash"), ev) or [cr])[0] if not case["crash"].get("sweep") else cr
-                item, det = crashed_chain(case, ev, cr, sandbox)
+            res = crashed_chain(case, ev, cr, sandbox)
+            if res is None:
+                out.extra["crash_not_reached"] = out.extra.get("crash_not_reached", 0) + 1
+                continue
+            item, det = res
             items.append(item)
             index[item["id"]] = (dict(case, crash=cr), det)
             out.add_case({"p": _p(case["p"]), "eol": case["p"].get("eol", "lf"), "init": case["init"], "script": case["script"], "crash": cr}, nontrivial=True)
@@ -562,10 +568,8 @@ def run(ctx, out):
     sw = sweep_cases([ctx.seed % len(CANONICAL)], limit=12) if ctx.quick else sweep_cases(range(len(CANONICAL)), limit=60)
     items, _ = run_cases(sw, out, "sweep", sandbox)
     items, unreal = run_cases(directed_cases(), out, "directed", sandbox)
-    if unreal and not repaired_switches():
-        raise tlc.MachineryError("a directed case did not reach its crash point")
     if unreal:
-        out.note("%d directed crash points no longer exist in the repaired tree" % unreal)
+        out.note("%d directed crash points were not reached (the directory never looked like that)" % unreal)
     out.note("leg C2S: %d chains validated by TLC" % out.traces_validated)
     cov = out.extra["coverage_of_executed_chains"]
     for dim, need in (("end", ("returned", "raised", "crashed", "declined")), ("crash", ("kill", "intr", "none")), ("exc", ("DataError", "SystemSetupError", "NetError", "LibError")), ("eol", ("lf", "crlf"))):
